@@ -11,6 +11,7 @@ import (
 	"math/big"
 	"regexp"
 	"sort"
+	"strconv"
 	"strings"
 )
 
@@ -702,7 +703,7 @@ func (e *Exec) trCall(x *SCall, env *SpecEnv) TV {
 		w := e.tr(x.Args[0], env)
 		k := e.tr(x.Args[1], env)
 		if w.T.Sort != SBV64 {
-			e.specFail("bit() of a non-word")
+			w.T = e.toSort(w.T, SBV64)
 		}
 		e.needBitLib()
 		return TV{mk(SBool, "bitU", w.T, k.T), specBoolT}
@@ -710,7 +711,7 @@ func (e *Exec) trCall(x *SCall, env *SpecEnv) TV {
 		argn(1)
 		w := e.tr(x.Args[0], env)
 		e.needPopcnt()
-		return TV{mk(SInt, "popcnt", w.T), specInt}
+		return TV{mk(SInt, "popcnt", e.toSort(w.T, SBV64)), specInt}
 	case "arr":
 		// the backing array of a slice as a value
 		argn(1)
@@ -856,7 +857,7 @@ func (e *Exec) trCall(x *SCall, env *SpecEnv) TV {
 	if sf.Recurse {
 		return e.recursiveSpecCall(sf, args, env)
 	}
-	if sf.Pred && len(args) > 0 && args[len(args)-1].T.Sort == SInt {
+	if (sf.Pred && len(args) > 0 && args[len(args)-1].T.Sort == SInt) || sf.Prop {
 		if tv, ok := e.predCall(sf, sfPkg, args, env); ok {
 			return tv
 		}
@@ -993,6 +994,7 @@ func rewriteSelfCalls(txt, name, hargs string) string {
 }
 
 
+var innerPredRe = regexp.MustCompile(`\(P_[A-Za-z0-9_]+![0-9a-f]+ v!pred\)`)
 var qvarRe = regexp.MustCompile(`![q]([0-9]+)`)
 var qvarFullRe = regexp.MustCompile(`[A-Za-z_][A-Za-z0-9_]*![q][0-9]+`)
 
@@ -1000,9 +1002,11 @@ var qvarFullRe = regexp.MustCompile(`[A-Za-z_][A-Za-z0-9_]*![q][0-9]+`)
 //   (declare-fun P!h (Int) Bool)   (forall v. P!h(v) = body)  with trigger P!h(v)
 // so that quantified views  forall v :: P(a,v) <==> ...  have the natural triggers P!h(v).
 func (e *Exec) predCall(sf *SpecFunc, sfPkg *types.Package, args []TV, env *SpecEnv) (TV, bool) {
-	marker := e.nq
 	n := &SpecEnv{vars: map[string]TV{}, oldVars: map[string]TV{}, cur: env.cur, old: env.old, pkg: sf.Pkg, tpkg: sfPkg, depth: env.depth + 1}
 	last := len(sf.Params) - 1
+	if sf.Prop {
+		last = -1 // no view parameter
+	}
 	for i, p := range sf.Params {
 		if i == last {
 			n.vars[p.Name] = TV{Term{"v!pred", SInt}, args[i].Ty}
@@ -1010,23 +1014,57 @@ func (e *Exec) predCall(sf *SpecFunc, sfPkg *types.Package, args []TV, env *Spec
 			n.vars[p.Name] = args[i]
 		}
 	}
-	// arguments must be closed terms (no variable bound by an enclosing quantifier)
+	if env.cur.probe != nil {
+		return TV{}, false
+	}
+	// an argument of the shape S[e] (element of a slice that does not depend on bound variables) is keyed by S and the
+	// heap version only; the element address becomes a parameter, so that S[i], S[j+0], S[j-n] share one symbol
+	var idxActuals []Term
+	for i, p := range sf.Params {
+		if i == last {
+			continue
+		}
+		a := args[i]
+		if !strings.HasPrefix(a.T.S, "(select (select ") {
+			continue
+		}
+		parts := splitTop(a.T.S[1 : len(a.T.S)-1])
+		if len(parts) != 3 || qvarFullRe.MatchString(parts[1]) {
+			continue
+		}
+		ph := fmt.Sprintf("i!p%d", len(idxActuals))
+		idxActuals = append(idxActuals, Term{parts[2], SInt})
+		n.vars[p.Name] = TV{Term{"(select " + parts[1] + " " + ph + ")", a.T.Sort}, a.Ty}
+		args[i] = n.vars[p.Name]
+	}
+	// variables bound by enclosing quantifiers that occur in the fixed arguments become parameters of the predicate
+	var bvars []string
+	seenB := map[string]bool{}
 	for i, a := range args {
 		if i == last {
 			continue
 		}
-		if qvarRe.MatchString(a.T.S) {
-			return TV{}, false
+		for _, m := range qvarFullRe.FindAllString(a.T.S, -1) {
+			if !seenB[m] {
+				seenB[m] = true
+				bvars = append(bvars, m)
+			}
 		}
 	}
-	body := e.tr(sf.Body, n)
-	_ = marker
-	if env.cur.probe != nil {
+	if len(bvars) > 4 {
 		return TV{}, false
 	}
-	// alpha-normalise bound variable numbering so that equal instances get the same name
+	body := e.tr(sf.Body, n)
+	if body.T.Sort != SBool {
+		return TV{}, false
+	}
+	// canonical text: enclosing bound variables -> #Bk#, own bound variables -> sequential names
+	canon := body.T.S
+	for k, b := range bvars {
+		canon = strings.ReplaceAll(canon, b, fmt.Sprintf("b!p%d", k))
+	}
 	norm := map[string]string{}
-	canon := qvarFullRe.ReplaceAllStringFunc(body.T.S, func(m string) string {
+	canon = qvarFullRe.ReplaceAllStringFunc(canon, func(m string) string {
 		if r, ok := norm[m]; ok {
 			return r
 		}
@@ -1034,19 +1072,60 @@ func (e *Exec) predCall(sf *SpecFunc, sfPkg *types.Package, args []TV, env *Spec
 		norm[m] = r
 		return r
 	})
-	body.T.S = canon
 	h := sha256.Sum256([]byte(sf.Pkg + "." + sf.Name + "|" + canon))
 	name := fmt.Sprintf("P_%s!%x", sf.Name, h[:6])
 	if !e.declared["pred:"+name] {
 		e.mark("pred:" + name)
-		e.rawDecl("fun:"+name, fmt.Sprintf("(declare-fun %s (Int) Bool)", name))
-		e.globalAxiom(fmt.Sprintf("(assert (forall ((v!pred Int)) (! (= (%s v!pred) %s) :pattern ((%s v!pred)))))", name, body.T.S, name))
+		var sorts, binders, formals []string
+		for k := range idxActuals {
+			sorts = append(sorts, "Int")
+			binders = append(binders, fmt.Sprintf("(i!p%d Int)", k))
+			formals = append(formals, fmt.Sprintf("i!p%d", k))
+		}
+		for k := range bvars {
+			sorts = append(sorts, "Int")
+			binders = append(binders, fmt.Sprintf("(b!p%d Int)", k))
+			formals = append(formals, fmt.Sprintf("b!p%d", k))
+		}
+		if last >= 0 {
+			sorts = append(sorts, "Int")
+			binders = append(binders, "(v!pred Int)")
+			formals = append(formals, "v!pred")
+		}
+		e.rawDecl("fun:"+name, fmt.Sprintf("(declare-fun %s (%s) Bool)", name, strings.Join(sorts, " ")))
+		if len(formals) == 0 {
+			e.globalAxiom(fmt.Sprintf("(assert (= %s %s))", name, canon))
+		} else {
+			app := "(" + name + " " + strings.Join(formals, " ") + ")"
+			pats := ":pattern (" + app + ")"
+			if last >= 0 && len(bvars) == 0 && len(idxActuals) == 0 {
+				// bottom-up: a membership fact of an inner view (same element) also produces this view's atom
+				seenP := map[string]bool{}
+				for _, m := range innerPredRe.FindAllString(canon, -1) {
+					if !seenP[m] && !strings.HasPrefix(m, "("+name+" ") {
+						seenP[m] = true
+						pats += " :pattern (" + m + ")"
+					}
+				}
+			}
+			e.globalAxiom(fmt.Sprintf("(assert (forall (%s) (! (= %s %s) %s)))", strings.Join(binders, " "), app, canon, pats))
+		}
 	}
-	return TV{mk(SBool, name, args[last].T), specBoolT}, true
+	var actuals []Term
+	actuals = append(actuals, idxActuals...)
+	for _, b := range bvars {
+		actuals = append(actuals, Term{b, SInt})
+	}
+	if last >= 0 {
+		actuals = append(actuals, args[last].T)
+	}
+	if len(actuals) == 0 {
+		return TV{Term{name, SBool}, specBoolT}, true
+	}
+	return TV{mk(SBool, name, actuals...), specBoolT}, true
 }
 
-
-// viewForalls returns the view-quantified conjuncts  forall v in 0..65536 :: B  of a clause.
+// viewForalls returns the view-quantified conjuncts  forall v in LO..HI :: B  (LO, HI literals) of a clause.
 func viewForalls(x SExpr) []*SQuant {
 	switch y := x.(type) {
 	case *SBin:
@@ -1057,13 +1136,17 @@ func viewForalls(x SExpr) []*SQuant {
 		if y.Forall && y.Type == "" {
 			lo, ok1 := y.Lo.(*SLit)
 			hi, ok2 := y.Hi.(*SLit)
-			if ok1 && ok2 && lo.Val == "0" && hi.Val == "65536" {
-				return []*SQuant{y}
+			if ok1 && ok2 && !lo.Bool && !hi.Bool {
+				if n, err := strconv.ParseInt(hi.Val, 0, 64); err == nil && n >= 65536 {
+					return []*SQuant{y}
+				}
 			}
 		}
 	}
 	return nil
 }
+
+func viewRange(q *SQuant) string { return q.Lo.(*SLit).Val + ".." + q.Hi.(*SLit).Val }
 
 const viewPH = "@V@"
 
@@ -1080,7 +1163,7 @@ func (e *Exec) assumeClause(st *State, c Clause, env *SpecEnv) {
 	}
 	for _, q := range viewForalls(c.E) {
 		if tv, ok := e.tryTr(q.Body, env.with(q.Var, TV{Term{viewPH, SInt}, specInt})); ok && tv.T.Sort == SBool {
-			e.viewFacts = append(e.viewFacts, viewFact{at: n0, pc: st.pc.S, body: tv.T.S})
+			e.viewFacts = append(e.viewFacts, viewFact{at: n0, pc: st.pc.S, body: tv.T.S, rng: viewRange(q)})
 		}
 	}
 }
@@ -1101,7 +1184,7 @@ func (e *Exec) viewGoalOf(c Clause, env *SpecEnv, st *State) string {
 		env = e.localEnv(st)
 	}
 	if tv, ok := e.tryTr(q.Body, env.with(q.Var, TV{Term{viewPH, SInt}, specInt})); ok && tv.T.Sort == SBool {
-		return tv.T.S
+		return viewRange(q) + "|" + tv.T.S
 	}
 	return ""
 }
